@@ -181,9 +181,21 @@ fn one_set_input(syms: &[u8], hint: Option<usize>, fail_at: Option<usize>, bound
     }
     model.sort_unstable();
     let should_fail = fail_at.map_or(false, |f| f <= entries.len());
+    // in-place targets are built with a second hasher state for half of the inputs: the result must hash with
+    // the target's own hasher
+    let alt = in_place_target.map_or(false, |t| (syms.len() + t.len()) % 2 == 1);
+    if alt {
+        env::with(|e| e.plan_b = Plan::Mix.table());
+    }
     let check_set = |s: &Set, exact: bool| -> Result<(), String> {
         let d = s.verif_dump();
-        inv::check_structure(&d, inv::Which { lawful_hash: true }, &|i| s.verif_bucket(i).map(|k| plan_hash(k.id)))?;
+        inv::check_structure(&d, inv::Which { lawful_hash: true }, &|i| s.verif_bucket(i).map(|k| if alt { env::with(|e| e.plan_b[k.id as usize]) } else { plan_hash(k.id) }))
+            .map_err(|m| format!("{}: {m}", what()))?;
+        for g in s.iter() {
+            if s.get(&KeyRef(g.id)).map(|k| k.tok) != Some(g.tok) || !s.contains(&KeyRef(g.id)) {
+                return Err(format!("{}: element {} is yielded by iter() but not found by get() / contains()", what(), g.id));
+            }
+        }
         let mut got: Vec<(u8, u32)> = s.iter().map(|k| (k.id, k.tok)).collect();
         got.sort_unstable();
         if exact && got != model {
@@ -229,7 +241,7 @@ fn one_set_input(syms: &[u8], hint: Option<usize>, fail_at: Option<usize>, bound
             }
         }
         Some(t) => {
-            let mut place = Set::default();
+            let mut place = Set::with_hasher_in(PlanBuild { alt }, CheckAlloc);
             for (i, &id) in t.iter().enumerate() {
                 place.insert(TKey::make(id, 900 + i as u32));
             }
@@ -363,6 +375,54 @@ fn layout_hint_inputs() -> Result<u64, String> {
         }
     }
     n += big_place_inputs()?;
+    n += long_lying_inputs()?;
+    Ok(n)
+}
+
+/// Inputs that really are long (more entries than the 4096-entry cap reserves room for) and claim to be much
+/// longer: every allocation request made while reading must be justified by the cap or by the number of entries
+/// read so far (the table at most doubles), never by the claimed length.
+fn long_lying_inputs() -> Result<u64, String> {
+    type BMap = hashbrown::HashMap<u64, u64, std::hash::BuildHasherDefault<IdH>, CheckAlloc>;
+    type BSet = hashbrown::HashSet<u64, std::hash::BuildHasherDefault<IdH>, CheckAlloc>;
+    let mut n = 0;
+    for &len in &[7168usize, 7169, 7300, 14337] {
+        for &hint in &[Some(1usize << 20), Some(1 << 32), Some(usize::MAX), Some(0), None] {
+            for is_map in [true, false] {
+                env::reset();
+                let entries: Vec<(u64, u64)> = (0..len as u64).map(|i| (i, i)).collect();
+                let mut src = Src { entries, hint, fail_at: None, pos: 0, produced: 0 };
+                let what = format!("deserialize({} of {len} distinct entries, claimed size hint {:?})", if is_map { "map" } else { "set" }, hint);
+                env::with(|e| {
+                    e.log_requests = true;
+                    e.requests.clear();
+                });
+                let got_len = if is_map {
+                    env::catch(|| BMap::deserialize(&mut src)).map_err(|m| format!("{what}: panicked: {m}"))?.map_err(|e| format!("{what}: failed: {e}"))?.len()
+                } else {
+                    env::catch(|| BSet::deserialize(&mut src)).map_err(|m| format!("{what}: panicked: {m}"))?.map_err(|e| format!("{what}: failed: {e}"))?.len()
+                };
+                let req = env::with(|e| {
+                    e.log_requests = false;
+                    std::mem::take(&mut e.requests)
+                });
+                if got_len != len {
+                    return Err(format!("{what}: result has {got_len} entries"));
+                }
+                // the largest table the input itself justifies: one doubling beyond what holds `len` entries
+                let bound = if is_map {
+                    BMap::with_capacity_and_hasher_in((2 * len + 2).max(4096), Default::default(), CheckAlloc).allocation_size()
+                } else {
+                    BSet::with_capacity_and_hasher_in((2 * len + 2).max(4096), Default::default(), CheckAlloc).allocation_size()
+                };
+                if let Some(f) = req.iter().find(|f| f.0 > bound) {
+                    return Err(format!("{what}: an allocation of {} bytes was requested; the entries actually read justify at most {bound} bytes", f.0));
+                }
+                end_of_run_checks(&ZERO_BASE).map_err(|m| format!("{what}: {m}"))?;
+                n += 1;
+            }
+        }
+    }
     Ok(n)
 }
 
